@@ -421,11 +421,11 @@ pub fn run_batch(cases: &[(String, Vec<u8>)], seed: u64, dir: &str, tag: &str) -
         loop {
             // key generation at start-up is outside the per-case watchdog
             // cases that run an admitted Argon2 derivation (up to 2 GiB by design, C19's subject) get a
-            // wider budget; everything else the 5 s watchdog
+            // wider budget; everything else the watchdog
             let budget = match running {
-                Some((i, _)) if cases.get(i).map(|c| c.0.ends_with("+slow")).unwrap_or(false) => Duration::from_secs(40),
+                Some((i, _)) if cases.get(i).map(|c| c.0.ends_with("+slow")).unwrap_or(false) => Duration::from_secs(300),
                 Some(_) => Duration::from_millis(WATCHDOG_MS as u64),
-                None => Duration::from_secs(60),
+                None => Duration::from_secs(300),
             };
             match rx.recv_timeout(budget) {
                 Ok(line) => {
@@ -835,7 +835,7 @@ pub fn run(ctx: &mut Ctx, _ring: &Ring) {
         let input = format!("kind={kind} data={shown}");
         ctx.oracle("no_panic", site, &input, res.class != "panic", &format!("PANIC {}", res.detail));
         ctx.oracle("no_abort", site, &input, res.class != "abort", &res.detail);
-        let budget = if kind.ends_with("+slow") { 40_000 } else { WATCHDOG_MS };
+        let budget = if kind.ends_with("+slow") { 300_000 } else { WATCHDOG_MS };
         ctx.oracle("returns_within_watchdog", site, &input, res.class != "timeout" && res.ms < budget, &format!("{} ms {}", res.ms, res.detail));
         ctx.stat(&format!("child:{kind}:{}", res.class));
         if res.ms > 1000 {
